@@ -4,7 +4,7 @@
    (727.0-B-5 5.1.8, 5.1.9, 5.4).  File names are the UTF-8 octets of the Python str. *)
 From Coq Require Import ZArith List Bool.
 From SP Require Import Base.Result Base.Bytes Base.Utf8 Model.Lv Model.Tlv Spec.TlvSpec
-  Proofs.LvProofs Proofs.TlvProofs.
+  Proofs.LvProofs Proofs.TlvProofs Proofs.TlvConv.
 Import ListNotations.
 Open Scope Z_scope.
 
@@ -147,6 +147,106 @@ Theorem C08_status_code_maps : forall sc, is_fs_status sc = true -> 0 <= sc ->
 Proof. exact status_code_maps. Qed.
 Print Assumptions C08_status_code_maps.
 
+(* ---------------- converting a generic TLV of the MATCHING type ---------------- *)
+(* X_value_layout = the value part of X's layout *)
+Theorem C08_value_layouts : forall a st f s m cc hc v,
+  fsreq_layout a f s = tlv_layout T_FILESTORE_REQUEST (fsreq_value_layout a f s) /\
+  fsresp_layout a st f s m = tlv_layout T_FILESTORE_RESPONSE (fsresp_value_layout a st f s m) /\
+  fault_layout cc hc = tlv_layout T_FAULT_HANDLER_OVERRIDE [cc * 16 + hc] /\
+  entity_layout v = tlv_layout T_ENTITY_ID v /\ flow_layout v = tlv_layout T_FLOW_LABEL v /\
+  msg_layout v = tlv_layout T_MESSAGE_TO_USER v.
+Proof. exact value_layouts. Qed.
+Print Assumptions C08_value_layouts.
+
+(* <Cls>.from_tlv(CfdpTlv(<its type>, <value>)) succeeds with the original parameters (hypotheses
+   of the round-trip theorems) *)
+Theorem C08_fsreq_from_tlv_matching : forall a f s,
+  0 <= a <= 8 -> 1 + len (fs_names_layout a f s) <= 255 ->
+  utf8_valid f = true -> (second_name_present a = true -> utf8_valid s = true) ->
+  fsreq_from_tlv {| tlv_type := TLV_FILESTORE_REQUEST; tlv_value := fsreq_value_layout a f s |} =
+  Ok {| fq_action := a; fq_first := f; fq_second := if second_name_present a then s else [] |}.
+Proof. exact fsreq_from_tlv_matching. Qed.
+Print Assumptions C08_fsreq_from_tlv_matching.
+
+Theorem C08_fsresp_from_tlv_matching : forall a sc f s m,
+  is_fs_status sc = true -> 0 <= sc -> sc / 16 = a ->
+  1 + len (fs_names_layout a f s) + (1 + len m) <= 255 ->
+  utf8_valid f = true -> (second_name_present a = true -> utf8_valid s = true) ->
+  fsresp_from_tlv {| tlv_type := TLV_FILESTORE_RESPONSE;
+                     tlv_value := fsresp_value_layout a (sc mod 16) f s m |} =
+  Ok {| fp_action := a; fp_status := sc; fp_first := f;
+        fp_second := if second_name_present a then s else []; fp_msg := m |}.
+Proof. exact fsresp_from_tlv_matching. Qed.
+Print Assumptions C08_fsresp_from_tlv_matching.
+
+Theorem C08_fault_from_tlv_matching : forall cc hc, 0 <= cc <= 15 -> 0 <= hc <= 15 ->
+  fault_from_tlv {| tlv_type := TLV_FAULT_HANDLER; tlv_value := [cc * 16 + hc] |} =
+  Ok {| fh_cc := cc; fh_hc := hc;
+        fh_tlv := {| tlv_type := TLV_FAULT_HANDLER; tlv_value := [cc * 16 + hc] |} |}.
+Proof. exact fault_from_tlv_matching. Qed.
+Print Assumptions C08_fault_from_tlv_matching.
+
+Theorem C08_fault_from_tlv_is_new : forall cc hc, 0 <= cc <= 15 -> 0 <= hc <= 15 ->
+  fault_from_tlv {| tlv_type := TLV_FAULT_HANDLER; tlv_value := [cc * 16 + hc] |} = fault_new cc hc.
+Proof. exact fault_from_tlv_is_new. Qed.
+Print Assumptions C08_fault_from_tlv_is_new.
+
+Theorem C08_wrappers_from_tlv_matching : forall v,
+  entity_from_tlv {| tlv_type := TLV_ENTITY_ID; tlv_value := v |} =
+    Ok {| tlv_type := TLV_ENTITY_ID; tlv_value := v |} /\
+  flow_from_tlv {| tlv_type := TLV_FLOW_LABEL; tlv_value := v |} =
+    Ok {| tlv_type := TLV_FLOW_LABEL; tlv_value := v |} /\
+  msg_from_tlv {| tlv_type := TLV_MESSAGE_TO_USER; tlv_value := v |} =
+    Ok {| tlv_type := TLV_MESSAGE_TO_USER; tlv_value := v |}.
+Proof. exact wrappers_from_tlv_matching. Qed.
+Print Assumptions C08_wrappers_from_tlv_matching.
+
+(* TlvHolder.to_<cls> on a generic TLV is exactly <Cls>.from_tlv ... *)
+Theorem C08_holder_generic_is_from_tlv : forall t,
+  holder_to TLV_FILESTORE_REQUEST (HGeneric t) = (do r <- fsreq_from_tlv t; Ok (HFsReq r)) /\
+  holder_to TLV_FILESTORE_RESPONSE (HGeneric t) = (do r <- fsresp_from_tlv t; Ok (HFsResp r)) /\
+  holder_to TLV_MESSAGE_TO_USER (HGeneric t) = (do r <- msg_from_tlv t; Ok (HMsg r)) /\
+  holder_to TLV_FAULT_HANDLER (HGeneric t) = (do r <- fault_from_tlv t; Ok (HFault r)) /\
+  holder_to TLV_FLOW_LABEL (HGeneric t) = (do r <- flow_from_tlv t; Ok (HFlow r)) /\
+  holder_to TLV_ENTITY_ID (HGeneric t) = (do r <- entity_from_tlv t; Ok (HEntity r)).
+Proof. exact holder_generic_is_from_tlv. Qed.
+Print Assumptions C08_holder_generic_is_from_tlv.
+
+(* ... hence a matching generic TLV converts to the concrete object with the original parameters *)
+Theorem C08_holder_generic_matching_fsreq : forall a f s,
+  0 <= a <= 8 -> 1 + len (fs_names_layout a f s) <= 255 ->
+  utf8_valid f = true -> (second_name_present a = true -> utf8_valid s = true) ->
+  holder_to TLV_FILESTORE_REQUEST
+    (HGeneric {| tlv_type := TLV_FILESTORE_REQUEST; tlv_value := fsreq_value_layout a f s |}) =
+  Ok (HFsReq {| fq_action := a; fq_first := f; fq_second := if second_name_present a then s else [] |}).
+Proof. exact holder_generic_matching_fsreq. Qed.
+Print Assumptions C08_holder_generic_matching_fsreq.
+
+Theorem C08_holder_generic_matching_fsresp : forall a sc f s m,
+  is_fs_status sc = true -> 0 <= sc -> sc / 16 = a ->
+  1 + len (fs_names_layout a f s) + (1 + len m) <= 255 ->
+  utf8_valid f = true -> (second_name_present a = true -> utf8_valid s = true) ->
+  holder_to TLV_FILESTORE_RESPONSE
+    (HGeneric {| tlv_type := TLV_FILESTORE_RESPONSE;
+                 tlv_value := fsresp_value_layout a (sc mod 16) f s m |}) =
+  Ok (HFsResp {| fp_action := a; fp_status := sc; fp_first := f;
+                 fp_second := if second_name_present a then s else []; fp_msg := m |}).
+Proof. exact holder_generic_matching_fsresp. Qed.
+Print Assumptions C08_holder_generic_matching_fsresp.
+
+Theorem C08_holder_generic_matching_simple : forall cc hc v, 0 <= cc <= 15 -> 0 <= hc <= 15 ->
+  holder_to TLV_FAULT_HANDLER (HGeneric {| tlv_type := TLV_FAULT_HANDLER; tlv_value := [cc * 16 + hc] |}) =
+    Ok (HFault {| fh_cc := cc; fh_hc := hc;
+                  fh_tlv := {| tlv_type := TLV_FAULT_HANDLER; tlv_value := [cc * 16 + hc] |} |}) /\
+  holder_to TLV_ENTITY_ID (HGeneric {| tlv_type := TLV_ENTITY_ID; tlv_value := v |}) =
+    Ok (HEntity {| tlv_type := TLV_ENTITY_ID; tlv_value := v |}) /\
+  holder_to TLV_FLOW_LABEL (HGeneric {| tlv_type := TLV_FLOW_LABEL; tlv_value := v |}) =
+    Ok (HFlow {| tlv_type := TLV_FLOW_LABEL; tlv_value := v |}) /\
+  holder_to TLV_MESSAGE_TO_USER (HGeneric {| tlv_type := TLV_MESSAGE_TO_USER; tlv_value := v |}) =
+    Ok (HMsg {| tlv_type := TLV_MESSAGE_TO_USER; tlv_value := v |}).
+Proof. exact holder_generic_matching_simple. Qed.
+Print Assumptions C08_holder_generic_matching_simple.
+
 (* ---------------- type safety: the 6 x 6 table ---------------- *)
 Theorem C08_foreign_type_refused_unpack : forall ty v rest,
   is_tlv_type ty = true -> len v <= 255 ->
@@ -185,7 +285,14 @@ Proof. exact holder_generic_foreign. Qed.
 Print Assumptions C08_holder_generic_foreign.
 
 (* ... with a concrete object inside: returned as is when of the requested class, refused
-   (TypeError) otherwise; an empty holder is refused; the result is always of the class asked for *)
+   (TypeError) otherwise; an empty holder is refused; the result is always of the class asked for.
+   NOTE on the error class: `Err EType` mirrors the code.  TlvHolder.__cast_internally
+   (spacepackets/cfdp/tlv/holder.py) raises the builtin TypeError, not TlvTypeMissmatch, when the
+   held object is a concrete TLV of another class; the type-mismatch error (ETlvMismatch) is raised
+   only on the CfdpTlv route (from_tlv / unpack: C08_foreign_type_refused_*, C08_holder_generic_foreign).
+   The property text says "fails with the type-mismatch error"; for this one route the code (and
+   therefore the faithful model) answers with TypeError instead -- still a refusal, never an object
+   of the wrong kind (C08_holder_result_kind). *)
 Theorem C08_holder_concrete : forall cls h,
   is_tlv_type cls = true -> is_concrete h = true ->
   (any_tlv_type h <> cls -> holder_to cls h = Err EType) /\
